@@ -7,7 +7,7 @@ CONFIG = {
                 "aux list with typed values, typed nil markers, empty strings, untyped nil, any aggregate count) decode(encode p) = p; a stream of point / stats / trace "
                 "frames decodes to the same point sequence; Tags.ID() round-trips for NUL-free tag maps; for EVERY byte string the frame reader and message decoder "
                 "return Ok or Err, never crash. Request/reply pairing on pooled connections, over a FIFO-connection model of the client pools: for EVERY call sequence, "
-                "if a connection whose reply was not fully read is never reused, every reply frame a call reads answers that call's own request (and a refutation without the discipline). MaxMessageSize, the dispatch table and the protobuf field tables (numbers, wire kinds, labels) are re-read from the source "
+                "if a connection whose reply was not fully read is never reused, every reply frame a call reads answers that call's own request (and a refutation without the discipline). Storage-layer faults: a second in-process node whose store panics on one shard is sent well-formed requests of three handler families; the panic must not escape handleConn (the data node would die), must be counted, and the next request must be served (observed; recover() is a Go runtime mechanism, not modelled). MaxMessageSize, the dispatch table and the protobuf field tables (numbers, wire kinds, labels) are re-read from the source "
                 "each run. The models are diffed against the real ReadLV/WriteTLV/handleConn, the real <T>PointEncoder/IteratorEncoder (byte equality) and the real "
                 "<T>PointDecoder/NewReaderIterator (decoded values; ok/err/panic class on arbitrary and mutated frames). Differential only (no theorem): well-formed "
                 "request envelopes with invalid or edge contents for every message type are fed to the real handleConn (no handler may panic, reply types must match the "
